@@ -154,7 +154,16 @@ theorem evState_reach {v : Variant} {c : Ctx} {a s t : St} {e : Ev} (h0 : Reach 
   | release i => simp only [evState, Option.some.injEq] at h; subst h; exact h0
   | nop => simp only [evState, Option.some.injEq] at h; subst h; exact h0
   | ret i pc => simp only [evState] at h; exact (of_ite_some h) ▸ h0
-  | runRet err => simp only [evState] at h; exact (of_ite_some h) ▸ h0
+  | runRet err =>
+    simp only [evState] at h
+    split at h
+    · exact (of_ite_some h) ▸ h0
+    · split at h
+      · simp at h; subst h; exact h0
+      · split at h
+        · exact .tail .stop h0 h
+        · simp at h
+  | cancelRun => exact .tail .cancelRun h0 h
   | quiet p => simp only [evState] at h; exact (of_ite_some h) ▸ h0
   | cancel i =>
     simp only [evState] at h
